@@ -874,9 +874,9 @@ STATEMENTS = {
 	'shape_dumps': 'the records and the span tuple Serialization.__dumps writes, as read from the source, are those of the model dumps',
 	'shape_loads': 'the attribute assignments of Serialization.__loads (and the constant assigned to meta.empty), as read from the source, are the model restoredMeta / restored token',
 	'shape_save': "EntryStored.save is json.dumps(data, separators=(',', ':')).encode('utf-8') with every other option default; only Serialization/EntryStored read Entry.source (scan of rogw/)",
-	'shape_identity': 'the tree-cache identity is (grammar_mtime, grammar, start, algorithem, mtime): the full str(mtime) expressions and the parser setting, pinned verbatim and in this order; the parser-pickle identity has the keys mtime, grammar, start, algorithem',
-	'identity_injective': 'the str(identity) text that is hashed determines all five components, for plain components (printable ASCII without quote and backslash: there repr(s) is the text between single quotes); md5 itself is not modelled',
-	'cache_file_injective': 'two runs share a module\'s cache file name (<path>-<md5 of str(identity)>.json) only if all five identity components agree — under exactly one hypothesis about md5, Md5CollisionFreeOnIdentities: no collision among tree-cache identity texts',
+	'shape_identity': "the tree-cache identity begins with (grammar_mtime, grammar, start, algorithem, mtime): the full str(mtime) expressions and the parser setting, pinned verbatim and in this order, followed by nothing or by the content hash ('hash': self.__sources.hash(source_path)) only; the parser-pickle identity has the keys mtime, grammar, start, algorithem",
+	'identity_injective': 'the str(identity) text that is hashed determines every component of the generated identity (five, or six with the content hash), for plain components (printable ASCII without quote and backslash: there repr(s) is the text between single quotes); md5 itself is not modelled',
+	'cache_file_injective': 'two runs share a module\'s cache file name (<path>-<md5 of str(identity)>.json) only if all identity components agree — under exactly one hypothesis about md5, Md5CollisionFreeOnIdentities: no collision among tree-cache identity texts',
 	'dumps_ok_iff': 'dumps(t) succeeds exactly when every source_map in the view of t can be read (fails only with AttributeError on a non-empty Meta lacking attributes — never produced by lark)',
 	'store_total': 'for trees whose non-empty metas carry all four attributes (all lark output) store→load always succeeds and preserves the view',
 	'store_total_partial': 'the guard is exact: store→load succeeds (and preserves the view) precisely on the well-formed trees',
@@ -933,6 +933,7 @@ def stream_identity(ctx: Ctx) -> Stream:
 			'start': setting.start,
 			'algorithem': setting.algorithem,
 			'mtime': str(os.path.getmtime(full)),
+			'hash': hashlib.md5(src.encode('utf-8')).hexdigest(),  # ISourceLoader.hash: md5 of the file's bytes (read only if the identity has the key)
 		}
 		# the values go to the model in the order of the keys the translator found in the source
 		try:
@@ -940,8 +941,8 @@ def stream_identity(ctx: Ctx) -> Stream:
 		except Exception as e:  # noqa: BLE001 - the translator no longer understands parser.py: the tie is broken, reported by run()
 			st.disagreements.append({'case': mp, 'op': 'identity keys', 'real': f'{type(e).__name__}: {e}', 'model': '(translator)'})
 			break
-		if sorted(order) != sorted(values):
-			st.disagreements.append({'case': mp, 'real': order, 'model': sorted(values), 'op': 'identity keys unknown to the harness'})
+		if not set(order) <= set(values) or not {'grammar_mtime', 'grammar', 'start', 'algorithem', 'mtime'} <= set(order):
+			st.disagreements.append({'case': mp, 'real': order, 'model': sorted(values), 'op': 'identity keys unknown to the harness / pinned keys missing'})
 			continue
 		lines.append('ident\t' + ','.join(hx(values[k]) for k in order))
 		real.append(names)
